@@ -1834,3 +1834,17 @@ floating = float
 
 from . import linalg  # noqa: E402
 from . import random  # noqa: E402
+
+
+def __getattr__(name):
+    """a numpy feature the shim does not model: the check that needs it is INCONCLUSIVE (exit 2), never a verdict;
+    names that numpy itself does not have are ordinary AttributeErrors"""
+    import importlib
+    try:
+        real = importlib.import_module("numpy")
+    except Exception:
+        real = None
+    if name.startswith('_') or real is None or not hasattr(real, name):
+        raise AttributeError("module %r has no attribute %r" % ("numpy", name))
+    import symnp as _np
+    _np._unsupported("numpy.%s" % name)
